@@ -46,6 +46,7 @@ def run(ctx):
     rows += [dict(base="biglexer", opts={}, k=0), dict(base="midlexer", opts={}, k=0), dict(base="midlexer", opts={"optimizeTables": True}, k=0)]
     # thresholds of the rune map (flat table / compressed ranges): lexers whose highest distinguished code point sits on either side of
     # 0x800, 0x1000, 0x10000 and at the top of the code space
+    rows += [dict(base="awkward", opts={}, k=0), dict(base="awkward", opts={"tokenLine": False}, k=0)]
     for f in sorted(os.listdir(os.path.join(vlib.VERIF, "corpus", "C17"))):
         if f.startswith("runetop_"):
             rows += [dict(base=f[:-len(".tmbody")], opts={}, k=0), dict(base=f[:-len(".tmbody")], opts={"caseInsensitive": True}, k=0)]
